@@ -24,7 +24,7 @@ var needSO = map[string]string{
 	"r2s": "sharedmem:4", "s2r": "sharedmem:4",
 }
 var needRAM = map[string]bool{"r2m": true, "m2r": true, "r2mri": true, "m2rri": true}
-var needIn = map[string]bool{"i2r": true, "i2rw": true, "sicv2": true, "sicv3": true, "sic": true}
+var needIn = map[string]bool{"addi": true, "i2r": true, "i2rw": true, "sicv2": true, "sicv3": true, "sic": true}
 var needOut = map[string]bool{"r2o": true, "r2owa": true, "r2owaa": true}
 
 // instances of every dynamic family (names are matched by the regexps in dynamical_*.go)
@@ -288,6 +288,13 @@ func gen(thorough bool) {
 		emit(b)
 		s := single("commented", 8, p, sos, "iverilog")
 		s.Commented = true
+		emit(s)
+	}
+	// (7b) what `bondmachine -create-verilog` does without a simbox file: a nil *simbox.Simbox
+	{
+		p, sos := procFor(base, "ha", 0)
+		s := finalize(single("nilsimbox", 8, p, sos, "iverilog"))
+		s.NilSimbox = true
 		emit(s)
 	}
 	// (8) random mixes: opcode subsets, register sizes, modes, threading, several processors,
